@@ -153,7 +153,7 @@ def enc_val(v):
 
 def enc_sig(sig):
   return [[[NAMES[n], trlib.opt(d)] for n, d in sig['pos']], trlib.opt(sig['varargs'] and NAMES[sig['varargs']]),
-          [[NAMES[n], trlib.opt(d)] for n, d in sig['kwonly']], trlib.opt(sig['varkw'] and NAMES[sig['varkw']])]
+          [[NAMES[n], trlib.opt(d)] for n, d in sig['kwonly']], trlib.opt(sig['varkw'] and NAMES[sig['varkw']]), sig.get('posonly', 0)]
 
 def enc_call(c):
   return [[enc_val(v) for v in c[0]], [[NAMES[k], enc_val(v)] for k, v in c[1]]]
@@ -269,6 +269,7 @@ def init_sig_tree(sig, cls):
   if not ps or ps[0].name != 'self':
     return ['no-self']
   pos, va, ko, vk = [], None, [], None
+  npo = sum(1 for p in ps[1:] if p.kind == p.POSITIONAL_ONLY)
   def dflt(p):
     if p.default is inspect.Parameter.empty: return []
     return [enc_val(p.default)] if isinstance(p.default, (int, list)) else [0]
@@ -278,7 +279,7 @@ def init_sig_tree(sig, cls):
     elif p.kind == p.VAR_POSITIONAL: va = code
     elif p.kind == p.KEYWORD_ONLY: ko.append([code, dflt(p)])
     else: vk = code
-  return [pos, trlib.opt(va), ko, trlib.opt(vk)]
+  return [pos, trlib.opt(va), ko, trlib.opt(vk), npo]
 
 # ---- the property read directly (independent of the Coq model) ------------------------------------------
 class Conflict(Exception):
@@ -362,6 +363,7 @@ def features(case, with_call=True):
       named, var = supply(sig, named, var, ([], [(k, v)]), True, False)
   except Conflict:
     pass
+  if sig.get('posonly') and set(n for n, _ in sig['pos'][:sig['posonly']]) & set(k for k, _ in case['ctor'][1] + case['lates'] + (list(call[1]))): f.append('positional-only-bound-by-name')
   if sig.get('posonly'): f.append('positional-only-parameters')
   if va and (any(k == va for k, _ in case['ctor'][1]) or any(k == va for k, _ in case['lates'])): f.append('varargs-bound-by-name')
   if case.get('post') == 2: f.append('json')
@@ -378,11 +380,11 @@ def classify_hit(case, got, exp, tag=''):
 # ---- generators ----------------------------------------------------------------------------------------
 VALS = [1, 2, 3, 10, 11, 12, 20, 21]
 
-def gen_supply(rng, sig, allow_va_kw, extra_names=('zz', 'yy'), bias=None, tidy=False, taken=()):
+def gen_supply(rng, sig, allow_va_kw, extra_names=('zz', 'yy'), bias=None, tidy=False, taken=(), name_posonly=False):
   """One way of supplying arguments. tidy: a supply that is acceptable on its own (no surplus, no unknown or repeated name,
   nothing from [taken]); otherwise anything goes."""
   posn = [n for n, _ in sig['pos']]
-  po = sig.get('posonly', 0)
+  po = 0 if name_posonly else sig.get('posonly', 0)
   if tidy:
     free = 0
     while free < len(posn) and posn[free] not in taken: free += 1
@@ -408,8 +410,8 @@ def gen_supply(rng, sig, allow_va_kw, extra_names=('zz', 'yy'), bias=None, tidy=
     rng.shuffle(kws)
   return pos, kws
 
-def gen_lates(rng, sig, n):
-  valid = [nn for nn, _ in sig['pos'][sig.get('posonly', 0):] + sig['kwonly']] + (['zz', 'yy'] if sig['varkw'] else [])
+def gen_lates(rng, sig, n, name_posonly=False):
+  valid = [nn for nn, _ in sig['pos'][0 if name_posonly else sig.get('posonly', 0):] + sig['kwonly']] + (['zz', 'yy'] if sig['varkw'] else [])
   out = []
   for _ in range(n):
     if sig['varargs'] and rng.random() < .15:
@@ -428,18 +430,19 @@ def names_supplied(sig, c):
 
 def gen_functor_case(rng, sig, kind=None):
   c = dict(kind=kind or rng.choice(['functor', 'functor', 'symbolize']), sig=sig, annotated=False)
-  c['ctor'] = gen_supply(rng, sig, True, tidy=rng.random() < .7)
+  byname = bool(sig.get('posonly')) and rng.random() < .35      # pyglove lets a positional-only parameter be bound by name (an extension)
+  c['ctor'] = gen_supply(rng, sig, True, tidy=rng.random() < .7, name_posonly=byname)
   c['ov'] = rng.random() < .2; c['ie'] = rng.random() < .2
-  c['lates'] = gen_lates(rng, sig, rng.choice([0, 0, 0, 1, 1, 2]))
+  c['lates'] = gen_lates(rng, sig, rng.choice([0, 0, 0, 1, 1, 2]), name_posonly=byname)
   c['setattr'] = rng.random() < .3
   c['ovo'] = rng.choice([None, None, None, True, False]); c['ieo'] = rng.choice([None, None, None, True, False])
   ov = c['ov'] if c['ovo'] is None else c['ovo']
   taken = () if ov or rng.random() < .15 else names_supplied(sig, c['ctor']) | set(k for k, _ in c['lates'])
-  c['call'] = gen_supply(rng, sig, False, tidy=rng.random() < .7, taken=taken)
+  c['call'] = gen_supply(rng, sig, False, tidy=rng.random() < .7, taken=taken, name_posonly=byname)
   if rng.random() < .5:
     # complete the call: give every still missing required parameter a value
     have = names_supplied(sig, c['ctor']) | set(k for k, _ in c['lates']) | names_supplied(sig, c['call'])
-    po = sig.get('posonly', 0)
+    po = 0 if byname else sig.get('posonly', 0)
     posn = [n for n, _ in sig['pos']]
     for i, (n, d) in enumerate(sig['pos'] + sig['kwonly']):
       if d is None and n not in have and not (i < po):
@@ -450,8 +453,9 @@ def gen_functor_case(rng, sig, kind=None):
 
 def gen_class_case(rng, sig):
   c = dict(kind='class', sig=sig, annotated=False)
-  c['ctor'] = gen_supply(rng, sig, False, tidy=rng.random() < .7)
-  c['lates'] = gen_lates(rng, sig, rng.choice([0, 0, 1, 1, 2]))
+  byname = bool(sig.get('posonly')) and rng.random() < .35
+  c['ctor'] = gen_supply(rng, sig, False, tidy=rng.random() < .7, name_posonly=byname)
+  c['lates'] = gen_lates(rng, sig, rng.choice([0, 0, 1, 1, 2]), name_posonly=byname)
   c['partial'] = rng.random() < .5
   c['post'] = rng.choice([0, 0, 0, 1, 2]); c['deep'] = rng.random() < .5
   return c
@@ -669,24 +673,31 @@ def run(ctx):
     for _ in range(ctx.scale(6, 60)):
       c = gen_supply(rng, sig, rng.random() < .3, extra_names=('zz', 'yy', 'args', 'kw'), tidy=rng.random() < .5)
       pyb.append((sig, c))
-  for _ in range(ctx.scale(300, 6000)):
-    sig = random_sig(rng, 3, 2)
-    pyb.append((sig, gen_supply(rng, sig, rng.random() < .5, extra_names=('zz', 'yy', 'args', 'kw'), tidy=rng.random() < .5)))
-  n_bind_mismatch = 0
+  for _ in range(ctx.scale(600, 9000)):
+    sig = random_sig(rng, 3, 2, posonly=True)
+    pyb.append((sig, gen_supply(rng, sig, rng.random() < .5, extra_names=('zz', 'yy', 'args', 'kw'), tidy=rng.random() < .5, name_posonly=rng.random() < .6)))
+  n_bind_mismatch = 0; n_bind_quirk = 0
   for sig, c in pyb:
     orig, _ = build(sig, 'functor')
     o = direct(orig, sig, c[0], c[1])
     o2 = bind_by_inspect(orig, sig, c[0], c[1])
-    if o != o2: n_bind_mismatch += 1
+    if o != o2:
+      # CPython 3.12 inspect.Signature.bind rejects a keyword that has the name of a positional-only parameter even when the function
+      # has **kwargs and the real call puts it there; the real call is the authority
+      if o[0] == 0 and o2[0] == 1 and sig.get('posonly') and set(n for n, _ in sig['pos'][:sig['posonly']]) & set(k for k, _ in c[1]):
+        n_bind_quirk += 1
+      else:
+        n_bind_mismatch += 1
     add([2, enc_sig(sig), enc_call(c)], o, dict(kind='py_bind', sig=sig, call=c))
     ctx.count(('py', sig_key(sig), json.dumps(c)), nontrivial=bool(c[0] or c[1]), kind='py_bind')
     ctx.hist('py_bind_outcome', 'returns' if o[0] == 0 else 'TypeError')
   ctx.extra['interpreter_call_vs_inspect_bind_mismatches'] = n_bind_mismatch
+  ctx.extra['inspect_bind_positional_only_name_in_kwargs_quirk_cases'] = n_bind_quirk
   if n_bind_mismatch:
     ctx.broken.append(dict(kind='correspondence', name='interpreter call vs inspect.signature.bind', detail='%d mismatches' % n_bind_mismatch))
 
   # (B) generated __init__ signature, every signature shape
-  sig_shapes = sigs2 + [random_sig(rng, 3, 2) for _ in range(ctx.scale(40, 400))]
+  sig_shapes = sigs2 + [random_sig(rng, 3, 2, posonly=True) for _ in range(ctx.scale(60, 600))]
   for sig in sig_shapes:
     for kind in ('functor', 'symbolize'):
       for annotated in (False, True):
@@ -694,11 +705,11 @@ def run(ctx):
         t = init_sig_tree(sig, F)
         add([3, enc_sig(sig)], t, dict(kind='signature', sig=sig, via=kind, annotated=annotated))
         ctx.count(('sig', sig_key(sig), kind, annotated), nontrivial=bool(sig['pos'] or sig['kwonly'] or sig['varargs'] or sig['varkw']), kind='signature')
-        want = enc_sig(sig)
+        want = enc_sig(dict(sig, posonly=0))     # the schema has no positional-only marker (C18_signature: drop_posonly)
         if t != want:
           ctx.hit('C18/signature/%s/init-differs' % kind, 'inspect.signature(%s.__init__) is %s, the function has %s' % (fn_source(sig, annotated).split('\n')[0], t, want),
                   dict(op='signature', sig=sig, via=kind, annotated=annotated))
-        if str(inspect.signature(F.__init__)) != '(self' + (', ' if str(inspect.signature(orig)) != '()' else '') + str(inspect.signature(orig))[1:]:
+        if not sig.get('posonly') and str(inspect.signature(F.__init__)) != '(self' + (', ' if str(inspect.signature(orig)) != '()' else '') + str(inspect.signature(orig))[1:]:
           ctx.hit('C18/signature/%s/init-text-differs' % kind, 'inspect.signature(__init__) = %s for %s' % (inspect.signature(F.__init__), inspect.signature(orig)),
                   dict(op='signature', sig=sig, via=kind, annotated=annotated))
     # symbolized class keeps the user's __init__ signature
